@@ -15,6 +15,7 @@ import Yld.Model.Parser
 import Yld.Proofs.Program
 import Yld.Proofs.ClauseOK
 import Yld.Proofs.PyTop
+import Yld.Proofs.PyDeep
 import Std.Data.String.ToNat
 namespace Yld.C01
 
@@ -120,11 +121,19 @@ theorem engine_is_frame_local (cfg : Cfg) (f : Nat) (name : String) (args : List
 theorem clause_compiler_output_ok (c : Clause) (n m : Nat) (h : ClauseSrcOK c m) : ClauseOK (compileClause c n).1 m :=
   compileClause_ok c n m h
 
-/-- **The driver's `python` mode is the compiled mode**: running the queried predicate from the
-    Python text printed for it (what tie T2p compares with the real engine on every generated case)
-    is `query` on the compiled program — for every definition table built from front-end output. -/
-theorem python_mode_is_compiled_mode (cfg : Cfg) (hdefs : DefsPyOK cfg.defs) (f : Nat) (name : String) (args : List Term) :
+/-- Running the queried predicate from the Python text printed for it (its callees as compiled
+    code) is `query` on the compiled program — for every definition table built from front-end output. -/
+theorem queried_predicate_from_its_text (cfg : Cfg) (hdefs : DefsPyOK cfg.defs) (f : Nat) (name : String) (args : List Term) :
     queryPyTop cfg f name args = query cfg f name args :=
   queryPyTop_eq cfg hdefs f name args
+
+/-- **Program-level Theorem B: the driver's `python` mode is the compiled mode.** With *every*
+    generated function interpreted from its printed Python text — the queried predicate and whatever
+    it calls, at any depth, through call/once/findall too — the engine answers every query exactly
+    as in compiled mode: same answers, order, bindings, store, outcome, at every fuel. Tie T2p
+    compares this mode with the real engine on every generated case. -/
+theorem python_mode_is_compiled_mode (cfg : Cfg) (hdefs : DefsPyOK cfg.defs) (f : Nat) (name : String) (args : List Term) :
+    queryD cfg f name args = query cfg f name args :=
+  queryD_eq cfg hdefs f name args
 
 end Yld.C01
